@@ -4,7 +4,6 @@
    amount of magnitude below 65535. *)
 From HV Require Import Base.Prelude Model.Filters Proofs.FiltersShuffle.
 
-Definition bytes_ok (d : bytes) : Prop := Forall (fun b => b < 256) d.
 
 (* position-weighted sum = sum of big-endian 16-bit words, an odd last byte being a high byte *)
 Fixpoint wsum (d : bytes) : N :=
